@@ -29,6 +29,27 @@ def run(fx, rep, tier):
     rule_repscan(fx, rep)
     rule_key(fx, rep)
     rule_filter(fx, rep)
+    rule_fen(fx, rep)
+
+
+def rule_fen(fx, rep):
+    """C17-FEN. `position fen <FEN> moves ..` starts from the position the FEN names and is shown by the FEN dump: the reader
+    installs what it parsed and the writer prints each scalar field from its own Game field. These are the C06-FIELDS clauses,
+    re-reported as a premise of this property (seed C17-13a: the clock read from a FEN clamped to 100)."""
+    import core
+    sub = type(rep)(rep.prop, rep.tier)
+    q = core.QUIET
+    core.QUIET = True
+    try:
+        pC06.rule_fields(fx, sub)
+    finally:
+        core.QUIET = q
+    vs = [v for v in sub.violations if v["key"].startswith("C06-FIELDS/")]
+    for v in vs:
+        rep.violation("C17-FEN", v["key"].replace("C06-FIELDS", "C17-FEN"), v["msg"] + " (the position after `position fen ..` is then not the one the FEN names, as its dump shows)", v["site"])
+    rep.obligations += sub.obligations
+    rep.discharged += sub.discharged
+    rep.rule("C17-FEN", sub.obligations, 3, not vs, "the reader installs what it parsed; scalar fields printed from their own Game field (shared with C06-FIELDS)")
 
 
 def rule_filter(fx, rep):
@@ -657,6 +678,8 @@ SQ = "src/chess/square.rs"
 _IMP = ("    combinator::{eof, map, opt, value},", "    combinator::{eof, map, opt, value, verify},")
 _TUP = "        tuple((uci_square, uci_square, opt(uci_promotion))),\n        |(src, dst, promotion)| UciMove {"
 MUTANTS = [
+    {"name": "halfmove clock read from a FEN clamped to 100 (seed C17-13a)", "expect": "C17-FEN/install-arg",
+     "edits": __import__("shared_mutants").edits_from_patch("seeded/C17-13a/patch.diff")},
     {"name": "position stops applying moves at a fifty-move / dead-material position (seed C17-8a)", "expect": "C17-MATCH/all-moves",
      "edits": [("src/engine/uci/mod.rs", "                for mv in moves {\n                    let matching_move = game.moves().expect_matching(mv.src, mv.dst, mv.promotion);\n                    game.make_move(matching_move);\n                }\n\n                self.game = game;",
                 "                for mv in moves {\n                    if game.is_stalemate_by_fifty_move_rule() || game.is_stalemate_by_insufficient_material() {\n                        break;\n                    }\n\n                    let matching_move = game.moves().expect_matching(mv.src, mv.dst, mv.promotion);\n                    game.make_move(matching_move);\n                }\n\n                self.game = game;")]},
